@@ -165,3 +165,16 @@ macro_rules! generate_test_eigen {
 
 generate_test_eigen!(f32, test_eigen_f32, sqrt);
 generate_test_eigen!(f64, test_eigen_f64, abs);
+
+// ---------------------------------------------------------------------------
+// verification hooks (add-only, off unless feature `verif-hooks` is enabled)
+#[cfg(feature = "verif-hooks")]
+impl<T> EigEngine<T>
+where
+    T: FloatT,
+{
+    /// lengths of the private BLAS work vectors (isuppz, work, iwork)
+    pub(crate) fn vh_work_lens(&self) -> (usize, usize, usize) {
+        (self.isuppz.len(), self.work.len(), self.iwork.len())
+    }
+}
